@@ -1,6 +1,7 @@
 #!/usr/bin/env python3
-"""usage: seed_check.py <patch.diff> <prop> [<prop> ...] [--tier quick]
-Applies the patch to /repo, runs the named checks, restores /repo. Prints one line per check."""
+"""usage: seed_check.py <patch.diff> <prop> [<prop> ...] [--thorough] [--seed=N]
+Applies the patch to a scratch worktree of /repo (outside /repo and /verif), points the named checks at it
+(LSV_REPO_OVERRIDE), removes the worktree afterwards. /repo itself is never modified. Prints one line per check."""
 import subprocess, sys, os, re, time
 diff = sys.argv[1]
 props = [a for a in sys.argv[2:] if not a.startswith("--")]
@@ -9,16 +10,20 @@ seed = "1"
 for a in sys.argv:
     if a.startswith("--seed="):
         seed = a.split("=")[1]
-st = subprocess.run(["git", "-C", "/repo", "status", "--porcelain", "--untracked-files=no"], stdout=subprocess.PIPE, text=True).stdout.strip()
-if st:
-    print("/repo has local modifications; refusing", st); sys.exit(2)
-r = subprocess.run(["git", "-C", "/repo", "apply", diff])
+# the patch is applied to a scratch worktree of /repo's HEAD (never to /repo itself); the checks are pointed at it
+import hashlib, shutil
+wt = os.environ.get("LSV_SEED_WT", "/tmp/lsv_seedrepo")       # one fixed path: the harness build for it stays incremental
+subprocess.run(["git", "-C", "/repo", "worktree", "remove", "--force", wt], stdout=subprocess.DEVNULL, stderr=subprocess.DEVNULL)
+r = subprocess.run(["git", "-C", "/repo", "worktree", "add", "-q", "--detach", wt, "HEAD"])
 if r.returncode != 0:
-    print("patch does not apply"); sys.exit(2)
+    print("cannot create scratch worktree"); sys.exit(2)
 try:
+    r = subprocess.run(["git", "-C", wt, "apply", os.path.abspath(diff)])
+    if r.returncode != 0:
+        print("patch does not apply"); sys.exit(2)
     for p in props:
         t0 = time.time()
-        env = dict(os.environ, LSV_EVIDENCE_DIR="/verif/out/seed_evidence")   # never overwrite the committed evidence
+        env = dict(os.environ, LSV_EVIDENCE_DIR="/verif/out/seed_evidence", LSV_REPO_OVERRIDE=wt)
         r = subprocess.run(["python3", "/verif/run.py", p, "--tier", tier, "--seed", seed], cwd="/verif", env=env, stdout=subprocess.PIPE, stderr=subprocess.PIPE, text=True)
         viol = [l for l in r.stdout.splitlines() if l.startswith("VIOLATION")]
         summ = [l for l in r.stderr.splitlines() if l.startswith("[" + p)]
@@ -28,4 +33,5 @@ try:
         if first:
             print("    " + first[0][:300])
 finally:
-    subprocess.run(["git", "-C", "/repo", "checkout", "--", "."])
+    subprocess.run(["git", "-C", "/repo", "worktree", "remove", "--force", wt], stdout=subprocess.DEVNULL, stderr=subprocess.DEVNULL)
+    subprocess.run(["git", "-C", "/repo", "worktree", "prune"])
